@@ -543,9 +543,9 @@ func c12CheckRun(cs *Case, ex *C12Expect, run int, o Obs) *Violation {
 				return mk("output-truncated", sig, "listing cut short")
 			}
 			mv, present := C12Val{}, false
-			for mk, v := range b.Model {
+			for _, mk := range sortedKeys(b.Model) {
 				if nfc(mk) == k {
-					mv, present = v, true
+					mv, present = b.Model[mk], true
 				}
 			}
 			if !present {
@@ -572,7 +572,7 @@ func c12CheckRun(cs *Case, ex *C12Expect, run int, o Obs) *Violation {
 			return mk("listing-malformed", sig, fmt.Sprintf("step %d %s: expected @P, got %q", b.Step, b.Var, l))
 		}
 		whole, _ := next()
-		for k := range b.Model {
+		for _, k := range sortedKeys(b.Model) {
 			if !strings.Contains(whole, nfc(k)+":") {
 				return mk("print-missing-property", sig, fmt.Sprintf("step %d: printing %s shows %q, property %q is missing", b.Step, b.Var, whole, k))
 			}
